@@ -103,7 +103,7 @@ func wave(w *world, reqs []reqSpec, order []int, sync_ bool) []observation {
 			defer wg.Done()
 			<-start
 			out[i] = w.serve(reqs[i])
-			w.barrier.mark(reqs[i].header("X-Tok")) // finished: never keeps the others waiting
+			w.barrier.done() // finished: never keeps the others waiting
 		}()
 	}
 	close(start)
@@ -116,6 +116,7 @@ func runRound(rd round) (res roundResult) {
 	k := len(rd.Reqs)
 	base := make([]observation, k)
 	usable := make([]bool, k)
+	seen := map[string]bool{}
 	for i, q := range rd.Reqs {
 		b1, err := baseline(q)
 		if err != nil {
@@ -129,6 +130,13 @@ func runRound(rd round) (res roundResult) {
 		}
 		base[i] = b1
 		usable[i] = b1 == b2
+		for _, d := range foreignFields(b1, q.Owner) {
+			key := fmt.Sprintf("load/%s/%s/foreign-when-alone", q.Shape, d.Field)
+			if !seen[key] {
+				seen[key] = true
+				res.Mism = append(res.Mism, mismatch{Key: key, What: fmt.Sprintf("%s served ALONE on a fresh server answers %s = %q, which belongs to an earlier request %v of this process", q, d.Field, clip(d.Got, 200), d.Foreign)})
+			}
+		}
 		if !usable[i] {
 			res.BaselineBad = append(res.BaselineBad, fmt.Sprintf("%s: %+v vs %+v", q, b1, b2))
 		}
@@ -142,7 +150,6 @@ func runRound(rd round) (res roundResult) {
 	for i := range first {
 		first[i] = i
 	}
-	seen := map[string]bool{}
 	for wv, order := range [][]int{first, rd.Order} {
 		obs := wave(w, rd.Reqs, order, rd.Sync)
 		for i, q := range rd.Reqs {
